@@ -219,7 +219,7 @@ Definition step (s : state) (o : op) : state :=
   | Prune => prune s
   | SetPowers p t => with_powers s p t
   | CatchUp => catch_up s
-  | Override n => override s n (compass s)
+  | Override n => override s (u64 n) (compass s)   (* the message field is a uint64 *)
   | Activate id => override s 0 id
   end.
 
